@@ -499,6 +499,10 @@ class Prop(Check):
         "Resolve.C09_files_success_iff_order",
         "Resolve.C09_query_success_iff_order",
         "Resolve.C09_query_order_valid",
+        "Resolve.C09_terminates_any_provider",
+        "Resolve.C09_any_provider_partition",
+        "Resolve.C09_loop_is_oracle",
+        "Resolve.C09_nonmono_order_false",
     ]
     DRIVER = "Drivers/Resolve.lean"
     QUICK_CASES = 480
